@@ -64,6 +64,8 @@ func (e *Expr) String() string {
 		s = e.Args[0].String() + "[" + e.Name + "]"
 	case "assert":
 		s = e.Args[0].String() + ".(" + e.Name + ")"
+	case "upd":
+		s = e.Args[0].String() + " with {" + joinExprs(e.Args[1:], ", ") + "}"
 	case "list":
 		s = "[" + joinExprs(e.Args, ", ") + "]"
 	case "up":
@@ -269,9 +271,17 @@ func (x *Exprer) compute(v ssa.Value) *Expr {
 		case token.MUL: // load
 			if fa, ok := v.X.(*ssa.FieldAddr); ok {
 				if al, ok := fa.X.(*ssa.Alloc); ok {
+					if e := x.reachingField(al, fa.Field, v); e != nil {
+						return e
+					}
 					if e := x.fieldOfAlloc(al, fa.Field); e != nil {
 						return e
 					}
+				}
+			}
+			if al, ok := v.X.(*ssa.Alloc); ok {
+				if e := x.reachingWhole(al, v); e != nil {
+					return e
 				}
 			}
 			return x.E(v.X)
@@ -475,6 +485,14 @@ func (x *Exprer) mkField(name string, v ssa.Value, base *Expr) *Expr {
 				return kv.Args[0]
 			}
 		}
+	}
+	if base.Op == "upd" {
+		for _, kv := range base.Args[1:] {
+			if kv.Op == "kv" && kv.Name == name {
+				return kv.Args[0]
+			}
+		}
+		return x.mkField(name, v, base.Args[0])
 	}
 	if base.Op == "call" {
 		if cv, ok := base.Val.(*ssa.Call); ok {
@@ -1192,4 +1210,140 @@ func mkIndex(v ssa.Value, base, idx *Expr) *Expr {
 		}
 	}
 	return mk("index", "", v, base, idx)
+}
+
+// ---- position-sensitive reading of a struct cell that is assigned as a whole and then patched field by field ----
+// (`pair, _ := k.GetTokenPair(id); pair.ERC20Address = addr; use(pair)`).  Only the mixed case is handled here, and only
+// when every store to the cell dominates the read and the address never escapes; everything else keeps the
+// order-insensitive rendering.
+
+type cellStores struct {
+	whole  []*ssa.Store
+	fields map[int][]*ssa.Store
+	ok     bool
+}
+
+func (x *Exprer) storesOf(a *ssa.Alloc) cellStores {
+	cs := cellStores{fields: map[int][]*ssa.Store{}, ok: true}
+	refs := a.Referrers()
+	if refs == nil {
+		cs.ok = false
+		return cs
+	}
+	for _, r := range *refs {
+		switch r := r.(type) {
+		case *ssa.Store:
+			if r.Addr == ssa.Value(a) {
+				cs.whole = append(cs.whole, r)
+			} else {
+				cs.ok = false // the address itself is stored somewhere
+			}
+		case *ssa.FieldAddr:
+			if rr := r.Referrers(); rr != nil {
+				for _, u := range *rr {
+					switch u := u.(type) {
+					case *ssa.Store:
+						if u.Addr == ssa.Value(r) {
+							cs.fields[r.Field] = append(cs.fields[r.Field], u)
+						} else {
+							cs.ok = false
+						}
+					case *ssa.UnOp:
+					default:
+						cs.ok = false // nested field address, call with the field's address, …
+					}
+				}
+			}
+		case *ssa.UnOp:
+		default:
+			cs.ok = false // the cell's address escapes (decode target, method with pointer receiver, …)
+		}
+	}
+	if len(cs.whole) == 0 || len(cs.fields) == 0 {
+		cs.ok = false // not the mixed case
+	}
+	return cs
+}
+
+func precedes(a, b ssa.Instruction) bool {
+	if a.Block() == b.Block() {
+		return instrIndex(a) < instrIndex(b)
+	}
+	return domOf(a.Parent()).dominates(a.Block(), b.Block())
+}
+
+// latestBefore: all stores precede the read; returns the one that all others precede (nil if not totally ordered).
+func latestBefore(stores []*ssa.Store, read ssa.Instruction) *ssa.Store {
+	var last *ssa.Store
+	for _, s := range stores {
+		if !precedes(s, read) {
+			return nil
+		}
+		if last == nil || precedes(last, s) {
+			last = s
+		} else if !precedes(s, last) {
+			return nil
+		}
+	}
+	return last
+}
+
+func (x *Exprer) reachingField(a *ssa.Alloc, field int, read *ssa.UnOp) *Expr {
+	cs := x.storesOf(a)
+	if !cs.ok {
+		return nil
+	}
+	all := append(append([]*ssa.Store(nil), cs.whole...), cs.fields[field]...)
+	last := latestBefore(all, read)
+	if last == nil {
+		return nil
+	}
+	if last.Addr == ssa.Value(a) {
+		st := derefStruct(a.Type())
+		return x.mkField(st.Field(field).Name(), read, x.E(last.Val))
+	}
+	return x.E(last.Val)
+}
+
+func (x *Exprer) reachingWhole(a *ssa.Alloc, read *ssa.UnOp) *Expr {
+	cs := x.storesOf(a)
+	if !cs.ok {
+		return nil
+	}
+	w := latestBefore(cs.whole, read)
+	if w == nil {
+		return nil
+	}
+	st := derefStruct(a.Type())
+	if st == nil {
+		return nil
+	}
+	var idx []int
+	for f := range cs.fields {
+		idx = append(idx, f)
+	}
+	sort.Ints(idx)
+	args := []*Expr{x.E(w.Val)}
+	for _, f := range idx {
+		var after []*ssa.Store
+		for _, s := range cs.fields[f] {
+			if precedes(s, read) && precedes(w, s) {
+				after = append(after, s)
+			} else if !precedes(s, w) && !precedes(read, s) {
+				return nil // a field store that may or may not have happened
+			}
+		}
+		if len(after) == 0 {
+			continue
+		}
+		last := latestBefore(after, read)
+		if last == nil {
+			return nil
+		}
+		args = append(args, mk("kv", st.Field(f).Name(), nil, x.E(last.Val)))
+	}
+	if len(args) == 1 {
+		return args[0]
+	}
+	return mk("upd", typeStr(a.Type()), read, args...)
 }
